@@ -420,7 +420,7 @@ fn run_ladder_family(family: &'static str, idx: usize, scratch: &std::path::Path
 fn run(a: &vhcore::Args) -> i32 {
     let mut rep = vhcore::Reporter::from_args(a, "model_checking");
     let t = a.tier;
-    let work = vhcore::work_dir("C17");
+    let work = vhcore::work_dir("C17/run"); // /verif/work/C17/{repro,fix-*.patch} survive re-runs
     let t_start = Instant::now();
     let bs = bases(t);
     let o = opts(t);
@@ -449,7 +449,9 @@ fn run(a: &vhcore::Args) -> i32 {
             req(i, format!("c17_base{i}"), &b.src, builds)
         })
         .collect();
-    let base_resps = pool.run(&base_reqs);
+    let mut base_pool = Pool::new(a.jobs, work.join("bases"));
+    base_pool.timeout = Duration::from_secs(1200); // four builds per request, two of them type-check std from scratch
+    let base_resps = base_pool.run(&base_reqs);
     let mut builds_total = 0usize;
     let mut self_checked = 0usize;
     let mut outcomes = vhcore::Distinct::default();
@@ -460,9 +462,13 @@ fn run(a: &vhcore::Args) -> i32 {
         let case_idx = cases.len();
         cases.push(Case { family: "base".into(), base: b.name.clone(), desc: format!("unmodified base {}", b.name), src: b.src.clone() });
         match r {
-            Err(reason) => failures.push(Failure { case: case_idx, release: false, shape: pool_err_shape(reason), detail: reason.clone() }),
+            Err(reason) => {
+                eprintln!("[c17] base {} worker failure: {reason}", b.name);
+                failures.push(Failure { case: case_idx, release: false, shape: pool_err_shape(reason), detail: reason.clone() })
+            }
             Ok(resp) => {
                 builds_total += resp.builds.len();
+                eprintln!("[c17] base {}: {}", b.name, resp.builds.iter().map(|x| format!("{} ok={} {}ms", x.label, x.ok, x.millis)).collect::<Vec<_>>().join(", "));
                 for (bi, bo) in resp.builds.iter().enumerate().take(2) {
                     match judge(bo) {
                         Err((shape, detail)) => failures.push(Failure { case: case_idx, release: bi == 1, shape, detail }),
@@ -683,7 +689,8 @@ fn run(a: &vhcore::Args) -> i32 {
     }
 
     // ---- report ----------------------------------------------------------------------------------------
-    let repro_dir = work.join("repro");
+    let repro_dir = vhcore::verif_root().join("work").join("C17").join("repro").join(t.as_str());
+    let _ = std::fs::remove_dir_all(&repro_dir);
     let _ = std::fs::create_dir_all(&repro_dir);
     let mut class_table = vec![];
     for (n, (key, v)) in classes.iter().enumerate() {
